@@ -548,6 +548,9 @@ pub fn bdnzl(
 ) -> Result<(), Error> {
     let detail = details(instruction)?;
 
+    if detail.op_count == 0 {
+        return Err(Error::Custom("bdnzl: no target operand".to_string()));
+    }
     let target = expr_const(
         detail.operands[detail.op_count as usize - 1].imm() as u32 as u64,
         32,
